@@ -130,6 +130,15 @@ TKappa ==
     /\ UNCHANGED <<vars, setup, seen>>
 
 TInit == TraceInitLib /\ mode = "trace" /\ st = [none |-> TRUE] /\ setup = [none |-> TRUE] /\ seen = <<>>
-TNext == TSetup \/ TMatch \/ TLte \/ TKappa
+\* call history: a matching asked for right after one at a velocity 3e-6 away, on an object that has answered many calls, is the
+\* matching a new object gives (velocities in ticks of 1e-7, temperatures in ticks of 1e-6 Tn: the two runs are the same arithmetic)
+THist ==
+    /\ IsEvent("Hist")
+    /\ "vJ" \in DOMAIN setup
+    /\ Ev.out = "ok"
+    /\ Ev.dTicks <= 2
+    /\ UNCHANGED <<vars, setup, seen>>
+
+TNext == TSetup \/ TMatch \/ TLte \/ TKappa \/ THist
 TSpec == TInit /\ [][TNext]_<<vars, tvars, tid, l>>
 =============================================================================
